@@ -78,7 +78,7 @@ func VerifC05_NonInterference() {
 // from the initiator of a non-terminated channel and repeats the original base CID, voucher type
 // and voucher. Single-field mutations of an otherwise valid request are refused.
 func VerifC05_RestartHonoured() {
-	f, st, chid := verifInstalled(1, 0)
+	f, st, chid := verifInstalled(1+zz.Choice("laterVouchers", 2), 0)
 	zz.Assume(st.SelfPeer == st.Responder)
 	zz.Assume(!channels.IsChannelCleaningUp(st.Status))
 	zz.Assert(f.m.RegisterVoucherType(st.Vouchers[0].Type, f.val) == nil, "register")
